@@ -1,6 +1,10 @@
 import Driver.Proto
 import StVerif.Model.StrPool
 import StVerif.Spec.Value
+import StVerif.Model.Slice
+import StVerif.Model.Split
+import StVerif.Model.Compare
+import StVerif.Model.Codec
 
 namespace Driver.Str
 open StVerif StVerif.Pool StVerif.StrPool Driver
@@ -117,6 +121,51 @@ def valueOf (p : Pool) (o : Nat) : List Nat :=
 
 def upToNul (xs : List Nat) : List Nat := xs.takeWhile (· != 0)
 
+/-! ### values of derived results, from the models of C06–C09 / C14 (ties the histories to the value models) -/
+
+def okBytes (o : Outcome Slice.Res) : Option (List Nat) := match o with | .ok r => some r.bytes | _ => none
+def okList {α : Type} (o : Outcome α) : Option α := match o with | .ok r => some r | _ => none
+
+/-- what the const operation `name` must return for source `v` and arguments `x`, `y` (values of slots or numbers),
+    whenever one of the value models covers it; `none` = not covered here (value taken from the observation) -/
+def expectedK (p : Pool) (name : String) (v : List Nat) (xn yn : Int) : Option (List Nat) :=
+  let slot (i : Int) : List Nat := valueOf p i.toNat
+  let cm (f : Int) : Search.CaseMode := if f != 0 then .insensitive else .sensitive
+  if name == "substr" then okBytes (Slice.substr v xn yn.toNat)
+  else if name == "whole" then some v
+  else if name == "left" then okBytes (Slice.left v xn.toNat)
+  else if name == "right" then okBytes (Slice.right v xn.toNat)
+  else if name == "trim" then okBytes (Slice.trim v Slice.whitespace)
+  else if name == "triml" then okBytes (Slice.trimLeft v Slice.whitespace)
+  else if name == "trimr" then okBytes (Slice.trimRight v Slice.whitespace)
+  else if name == "trimset" then okBytes (Slice.trim v (Slice.cBytes (slot xn)))
+  else if name == "upper" then some (Compare.toUpper v)
+  else if name == "lower" then some (Compare.toLower v)
+  else if name == "repl" then okList (Split.replace .sensitive v (slot xn) (slot yn))
+  else if name == "replci" then okList (Split.replace .insensitive v (slot xn) (slot yn))
+  else if name == "bf" then okBytes (Slice.beforeFirst (cm yn) v (.str (slot xn)))
+  else if name == "af" then okBytes (Slice.afterFirst (cm yn) v (.str (slot xn)))
+  else if name == "bl" then okBytes (Slice.beforeLast (cm yn) v (.str (slot xn)))
+  else if name == "al" then okBytes (Slice.afterLast (cm yn) v (.str (slot xn)))
+  else if name == "bfc" then okBytes (Slice.beforeFirst .sensitive v (.char xn.toNat))
+  else if name == "afc" then okBytes (Slice.afterFirst .sensitive v (.char xn.toNat))
+  else if name == "blc" then okBytes (Slice.beforeLast .sensitive v (.char xn.toNat))
+  else if name == "alc" then okBytes (Slice.afterLast .sensitive v (.char xn.toNat))
+  else if name == "plus" then some (v ++ slot xn)
+  else if name == "copyvia" then some v
+  else if name == "fromlatin1" then okList (Utf.stringFrom .latin1 .checkValidity (some v))
+  else if name == "fromutf8" then some (Utf.cleanupUtf8 v)
+  else if name == "hexenc" then some (Codec.hexEncode v)
+  else if name == "b64enc" then some (Codec.b64Encode v)
+  else none
+
+def expectedV (p : Pool) (name : String) (v : List Nat) (xn yn : Int) : Option (List (List Nat)) :=
+  let maxS : Nat := if yn < 0 then SIZE_MAX else yn.toNat
+  if name == "splitc" then okList (Split.splitChar .sensitive v xn.toNat maxS)
+  else if name == "splits" then okList (Split.splitStr .sensitive v (valueOf p xn.toNat) maxS)
+  else if name == "tok" then okList (Split.tokenize v Slice.whitespace)
+  else none
+
 /-- translate an operation into the model's vocabulary; values of derived objects and exceptions of
     value computations are taken from the observation (`cur`) -/
 def toSOp (p : Pool) (r : RawOp) (cur : ObsStep) : Option SOp :=
@@ -152,10 +201,17 @@ def toSOp (p : Pool) (r : RawOp) (cur : ObsStep) : Option SOp :=
   | 'G' => some (.ctorBufMove o (modeOf (r.str 1)))
   | 'g' => some (.ctorBufCopy o (modeOf (r.str 1)))
   | 'K' =>
-    if cur.exc == "" then some (.derive [(o, observed o)])
+    if cur.exc == "" then
+      -- the value comes from the value model when one covers the operation, else from the observation
+      let v := (expectedK p (r.str 2) (valueOf p s) (r.int 3) (r.int 4)).getD (observed o)
+      some (.derive [(o, v)])
     else (excOfName cur.exc).map .deriveThrow
   | 'V' =>
-    if cur.exc == "" then some (.derive ((vDests r).map fun d => (d, observed d)))
+    if cur.exc == "" then
+      let ds := vDests r
+      match expectedV p (r.str 1) (valueOf p o) (r.int 2) (r.int 3) with
+      | some pieces => some (.derive (ds.zipIdx.map fun (d, i) => (d, pieces.getD i [])))
+      | none => some (.derive (ds.map fun d => (d, observed d)))
     else (excOfName cur.exc).map .deriveThrow
   | 'Q' => if cur.exc == "" then some .query else (excOfName cur.exc).map .deriveThrow
   | _ => none
